@@ -43,7 +43,18 @@ pub fn set_lock_window(on: bool) {
     LOCK_WINDOW.store(on, Ordering::Release);
 }
 
+static PATIENT: AtomicBool = AtomicBool::new(false);
+
+/// Histories that move tens of MiB per step: a thread may legitimately run for
+/// seconds between two scheduling points on a busy machine.
+pub fn set_patient(on: bool) {
+    PATIENT.store(on, Ordering::Release);
+}
+
 fn blocked_after() -> Duration {
+    if PATIENT.load(Ordering::Acquire) {
+        return Duration::from_secs(45);
+    }
     if IMPATIENT.load(Ordering::Acquire) {
         Duration::from_millis(200)
     } else if LOCK_WINDOW.load(Ordering::Acquire) {
@@ -642,6 +653,9 @@ fn enabled_now(i: &Inner, ch: &dyn Chooser) -> Vec<Enabled> {
         let Some(p) = &s.pending else { continue };
         let en = match &p.point {
             Point::Hook("worker.recv", _) => !i.queues[s.inst].is_empty() || i.sender_dropped[s.inst],
+            // the request channel is bounded (sync_channel(1024)): a send on a full
+            // channel blocks until the worker has taken something
+            Point::Hook("caller.send", _) => i.queues[s.inst].len() < 1024,
             Point::Hook("caller.join", _) if IMPATIENT.load(Ordering::Acquire) => true,
             Point::Hook("caller.join", _) => match i.worker_of_inst.get(s.inst).copied().flatten() {
                 None => true,
